@@ -142,6 +142,9 @@ def gen_layout(rng, tier, counters):
             ops.append("Z %d %d %d %d" % (sid, b, v, rng.randrange(1, 100000)))
         kind = "empty" if not (b or v) else "code" if v <= b and b else "virtual_only" if not b else "code_plus_virtual"
         counters["section_" + kind] += 1
+    for _ in range(rng.choice([0, 0, 1, 2])):
+        ops.append("G %d %d %d" % (rng.choice(sorted(secs)), rng.choice([0, 1, 2, 4, 8, 3, 0x4000, 0x8000, 6]), rng.choice([0, 1, 2, 4, 8, 3, 5, 0x4000, 0xC000])))
+        counters["section_flag_ops"] += 1
     ops += ["I", "L"]
     for nm in rng.sample(pool, min(len(pool), 3)) + [TEXT_NAME, b".nope", gen_name(rng, pool)]:
         ops.append("%s %s" % ("Bs" if rng.random() < 0.3 else "B", hexname(nm)))
@@ -249,15 +252,25 @@ def gen_addrtab(rng, counters):
     seq += [rng.choice(seq) for _ in range(rng.randrange(0, 3))] if seq else []
     rng.shuffle(seq)
     nabs = 0
-    for a in seq:
-        ops.append("K %d %d" % (a, CALL_LEN))
-        if not jit and rng.random() < 0.3:
+    extra = 0
+
+    def embed():
+        nonlocal nabs, extra
+        if rng.random() < 0.5:
             ops.append("E %d" % rng.randrange(0, npre + 1))      # embed_label: absolute address of a label at the end of a section
             nabs += 1
-    if not jit and rng.random() < 0.3:
-        ops.append("E %d" % rng.randrange(0, npre + 1))
-        nabs += 1
-    secs[0]["b"] = CALL_LEN * len(seq) + 8 * nabs
+        else:
+            size = rng.choice([4, 8])
+            ops.append("ED %d %d %d" % (rng.randrange(0, npre + 1), rng.randrange(0, npre + 1), size))    # embed_label_delta
+            extra += size
+            counters["embed_label_delta_sites"] += 1
+    for a in seq:
+        ops.append("K %d %d" % (a, CALL_LEN))
+        if rng.random() < 0.3:
+            embed()
+    if rng.random() < 0.3:
+        embed()
+    secs[0]["b"] = CALL_LEN * len(seq) + 8 * nabs + extra
     counters["embed_label_sites"] += nabs
     tab_last = True
     if seq:
@@ -332,7 +345,11 @@ def relocated_bytes(calls, base, text_off, tab_off, sec_off=None):
     slots = []
     for c in calls:
         if c[0] == "abs":
-            text += le((base + sec_off[c[2]] + c[3]) & (W64 - 1), 8)
+            text += le(((base or 0) + sec_off[c[2]] + c[3]) & (W64 - 1), 8)       # base None: the canonical image (base subtracted again)
+            continue
+        if c[0] == "expr":
+            _, pos, t1, o1, t2, o2, size = c
+            text += le(((sec_off[t1] + o1) - (sec_off[t2] + o2)) & ((1 << (8 * size)) - 1), size)
             continue
         _, pos, target = c
         nxt = text_off + pos + 6
@@ -348,7 +365,7 @@ def relocated_bytes(calls, base, text_off, tab_off, sec_off=None):
 
 
 def text_placeholder(calls):
-    return b"".join(b"\x40\xE8\0\0\0\0" if c[0] == "call" else bytes(8) for c in calls)
+    return b"".join(b"\x40\xE8\0\0\0\0" if c[0] == "call" else bytes(8) if c[0] == "abs" else bytes(c[6]) for c in calls)
 
 
 def section_bytes(s):
@@ -450,6 +467,20 @@ def judge(line, ans):
                 secs[tab]["v"] += 8
             last_flat_end = None
             flattened_clean = False
+        elif op == "G":
+            sid, add, clr = int(toks[i + 1]), int(toks[i + 2]), int(toks[i + 3]); i += 4
+            a = nxt()
+            if sid not in secs:
+                continue
+            f0 = secs[sid].get("flags", 0x4003 if sid == 0 else 0)
+            exp = ((f0 | add) & ~clr) & 0xFFFF
+            secs[sid]["flags"] = exp
+            p = a.split(":")
+            if (int(p[1]), int(p[2])) != (exp, 0 if clr else 0):
+                wrong_or = int(p[1]) == ((f0 | add) | (~clr & 0xFFFF)) & 0xFFFF
+                out.append(("C10/section-flags/clear-sets-bits" if wrong_or else "C10/section-flags/wrong",
+                            "section %d: flags %#x, add_flags(%#x), clear_flags(%#x) -> %#x (has_flag %s), expected %#x" % (sid, f0, add, clr, int(p[1]), p[2], exp)))
+                secs[sid]["flags"] = int(p[1])
         elif op == "E":
             target = int(toks[i + 1]); i += 2
             a = nxt()
@@ -462,6 +493,24 @@ def judge(line, ans):
             if int(p[3]) != secs[target]["b"]:
                 out.append(("C10/harness/embed-label", "label bound at %s, the section holds %d bytes" % (p[3], secs[target]["b"])))
             calls.append(("abs", secs[0]["b"], target, int(p[3])))
+            secs[0]["b"] = int(p[2])
+            secs[0]["seed"] = None
+            secs[0]["data"] = text_placeholder(calls)
+            last_flat_end = None
+            flattened_clean = False
+        elif op == "ED":
+            t1, t2, size = int(toks[i + 1]), int(toks[i + 2]), int(toks[i + 3]); i += 4
+            a = nxt()
+            p = a.split(":")
+            if p[1] != "ok":
+                if t1 in secs and t2 in secs:
+                    out.append(("C10/harness/embed-label-delta", "embed_label_delta failed: %s" % a))
+                    return out
+                continue
+            if (int(p[3]), int(p[4])) != (secs[t1]["b"], secs[t2]["b"]):
+                out.append(("C10/harness/embed-label-delta", "labels bound at %s/%s, the sections hold %d/%d bytes" % (p[3], p[4], secs[t1]["b"], secs[t2]["b"])))
+            # (labels of one section are subtracted immediately: a constant, here 0)
+            calls.append(("expr", secs[0]["b"], t1, int(p[3]), t2, int(p[4]), size) if t1 != t2 else ("expr", secs[0]["b"], 0, 0, 0, 0, size))
             secs[0]["b"] = int(p[2])
             secs[0]["seed"] = None
             secs[0]["data"] = text_placeholder(calls)
@@ -701,13 +750,22 @@ def judge(line, ans):
                 ovf, end = False, max([s["off"] + max(s["b"], s["v"]) for s in order])
             else:
                 ovf, end, offs = ideal_walk(order)
+                nxo = end                       # an empty section sits where the next non-empty one starts (or at the end)
+                for k in range(len(order) - 1, -1, -1):
+                    if max(order[k]["b"], order[k]["v"]):
+                        nxo = offs[k]
+                    else:
+                        offs[k] = nxo
             if p[1] == "near":
                 continue
-            if calls and tab is not None:
-                # every target is out of rel32 reach of the allocated memory: FF /2 through the table, whatever the base
+            if calls:
+                # every call target is out of rel32 reach of the allocated memory: FF /2 through the table, whatever the base;
+                # absolute words are compared with the base subtracted again (the harness does that along the relocation list)
                 off_of = {s["id"]: o for s, o in zip(order, offs)}
-                tb, ab = relocated_bytes(calls, None, off_of[0], off_of[tab])
-                secs[0]["data"], secs[tab]["data"], secs[tab]["b"] = tb, ab, len(ab)
+                tb, ab = relocated_bytes(calls, None, off_of[0], off_of.get(tab, 0), off_of)
+                secs[0]["data"] = tb
+                if tab is not None:
+                    secs[tab]["data"], secs[tab]["b"] = ab, len(ab)
             if ovf:
                 if p[1] != "ETOOLARGE":
                     out.append(("C10/jit/overflow-accepted", "JitRuntime::_add answered %s for an overflowing layout" % p[1]))
@@ -823,6 +881,10 @@ def run(ck):
     margs = ["--mid"] if ";1,0,8,66,0,0;" in probe else []
     if margs:
         ck.log("this tree places empty sections provisionally (no backward step in flatten): comparing with the model variant --mid")
+    # detector for DESIGN 7.8 (Section::clear_flags ORs the complement): reported by the monitor, compared with that tree's model
+    if "G:65535:" in vlib.sh([impl], inp="G 0 0 2\n", timeout=60)[1]:
+        margs.append("--flags-pinned")
+        ck.log("this tree's Section::clear_flags sets bits (no fixes/C10-section-clear-flags): comparing with the model variant --flags-pinned")
     ri = run_sharded(impl, lines, timeout=tmo)
     rm = run_sharded(model, lines, timeout=tmo, args=margs) if not isinstance(ri, tuple) else []
     if isinstance(ri, tuple):
@@ -910,7 +972,7 @@ def run(ck):
                  "a scenario is non-trivial when flatten succeeded on it and its dumps list more than two sections (distinct scenario lines counted)",
          "samples": samples, "scenarios": len(lines), "corpus_scenarios": ncorpus, "scenarios_judged_by_oracle": judged,
          "traces_validated_against_impl": len(lines), "model_vs_impl_disagreements": disagreements,
-         "model_variant": (margs[0] if margs else "final"), "sanitizer_scenarios": len(sl), "sanitizer_reports": san_reports,
+         "model_variant": (" ".join(margs) if margs else "final"), "sanitizer_scenarios": len(sl), "sanitizer_reports": san_reports,
          "input_distribution": dict(counters)},
         assumptions=["the C++ harness calls the real CodeHolder::{new_section, section_by_name, flatten, code_size, copy_flattened_data, copy_section_data, "
                      "relocate_to_base} of /repo's working tree; section contents are fabricated through the public CodeBuffer::_size / Section::_virtual_size "
